@@ -871,6 +871,13 @@ func (r *replicateChannelManager) forwardMsg(targetPChannel string, msg *api.Rep
 
 		sourceKey := r.channelMapping.UsingSourceKey()
 		for _, channelHandler := range r.channelHandlerMap {
+			// a handler which is waiting for a free channel is in the map too, it has not started to read and may be
+			// bound to another channel later, so the forwarded msg would be stuck in it
+			select {
+			case <-channelHandler.startReadChan:
+			default:
+				continue
+			}
 			if (sourceKey && channelHandler.targetPChannel == targetPChannel) ||
 				(!sourceKey && channelHandler.sourcePChannel == targetPChannel) {
 				handler = channelHandler
